@@ -284,7 +284,25 @@ def run_cases(exe, seed, total, args=(), env=None, workers=None, chunk=None, tim
         chunk = max(1, (total + workers * 4 - 1) // (workers * 4))
     chunks = [(a, min(first + total, a + chunk)) for a in range(first, first + total, chunk)]
     res = Result()
+    # Cases that do not finish are the expensive kind of violation (each one costs a watchdog period).  Once a handful
+    # has been seen the verdict cannot change any more: the chunks not started yet are skipped.  Nothing of this happens
+    # on a tree where every case finishes.
+    state = {"stuck": 0, "skipped": 0}
+    limit = int(os.environ.get("VERIF_STUCK_LIMIT", "8"))
+
+    def one(ab):
+        if state["stuck"] >= limit:
+            state["skipped"] += 1
+            return Result()
+        r = _run_chunk(exe, seed, ab[0], ab[1], args, env, timeout, tsan)
+        state["stuck"] += len(r.hangs) + sum(1 for v in r.violations
+                                              if str(v.get("key", "")).startswith(("hang:", "logt:case-does-not-finish")))
+        return r
+
     with ThreadPoolExecutor(workers) as ex:
-        for r in ex.map(lambda ab: _run_chunk(exe, seed, ab[0], ab[1], args, env, timeout, tsan), chunks):
+        for r in ex.map(one, chunks):
             res.absorb(r)
+    if state["skipped"]:
+        res.diags.append({"key": "runner:stopped-early", "detail": "%d chunks skipped after %d cases that did not finish"
+                          % (state["skipped"], state["stuck"])})
     return res
